@@ -85,7 +85,7 @@ def solidEnds (l : Bytes) : Bool :=
   | some a, some b => isSolid a && isSolid b
   | _, _ => false
 
-/-- the laws assumed of Python's `json`, UTF-8 codec and `str.strip` -/
+/-- the laws assumed of Python's `json` and UTF-8 codec -/
 structure LibLaws {J : Type} (L : Lib J) : Prop where
   loads_dumps : ∀ j, L.loads (L.dumps j) = some j
   dumps_ends : ∀ j, solidEnds (L.dumps j) = true
@@ -93,9 +93,6 @@ structure LibLaws {J : Type} (L : Lib J) : Prop where
   dumps_utf8 : ∀ j, L.utf8ok (L.dumps j) = true
   utf8_join : ∀ a b, L.utf8ok (a ++ SP :: b) = (L.utf8ok a && L.utf8ok b)
   utf8_nil : L.utf8ok [] = true
-  ustrip_solid : ∀ l, solidEnds l = true → L.ustrip l = l
-  ustrip_sp : ∀ l, L.ustrip (l ++ [SP]) = L.ustrip l
-  ustrip_infix : ∀ l, ∃ p q, l = p ++ L.ustrip l ++ q
 
 /-- a token as SECoP writes actions and specifiers: printable ASCII at both ends, no blank, no newline -/
 def Token {J : Type} (L : Lib J) (l : Bytes) : Prop :=
@@ -155,6 +152,10 @@ inductive Verdict where
   | count (n m : Nat)
   /-- reply `k` does not belong to request line `k` -/
   | misfit (k : Nat)
+  /-- emitted line `i` is not valid UTF-8 (tested by the harness with Python's decoder) -/
+  | notUtf8 (i : Nat)
+  /-- the data part of emitted line `i` is not strict JSON (tested by the harness with a strict parser) -/
+  | notStrict (i : Nat)
 deriving DecidableEq, Repr
 
 /-- judge one recorded run: the concatenated input and the byte strings handed to `sendall` -/
@@ -168,5 +169,15 @@ def judge (T : Tables) (stream : Bytes) (outs : List Bytes) : Verdict :=
     else match firstBad (fitsLineB T) 0 reqs reps with
       | some k => .misfit k
       | none => .ok
+
+/-- `judge`, then the two implementation-side tests: per emitted line (valid UTF-8, data part strict JSON) -/
+def judgeAll (T : Tables) (stream : Bytes) (outs : List Bytes) (flags : List (Bool × Bool)) : Verdict :=
+  match judge T stream outs with
+  | .ok =>
+    match flags.findIdx? (fun f => !f.1), flags.findIdx? (fun f => !f.2) with
+    | some i, _ => .notUtf8 i
+    | none, some i => .notStrict i
+    | none, none => .ok
+  | v => v
 
 end Frappy.Spec.C07
